@@ -3,15 +3,17 @@ import B6.Model.Pbf
 Model of the OSM → feature mapping (property C29): `ingest/osm.go` (`NewFeatureSourceFromPBF`,
 `pbfSource.Read`, `reassembleMultiPolygon`, `isWayClosed`, `isRelationArea`, `FillTagsFromOSM`,
 `osmTagMapping` / `KeyForOSMKey`, the ID constructors) and `ingest/features.go`
-(`GenericFeature.FillFromOSM`, `AreaFeature.FillFromOSMWay`, `Tags.ModifyOrAddTag`).
+(`GenericFeature.FillFromOSM`, `AreaFeature.FillFromOSMWay`, `Tags.ModifyOrAddTag`, `Tags.GeometryLen`).
 
 `ingest es` is the list of features the feature source emits for the OSM elements `es`, in order (one
 reader goroutine); `world` is what the basic world builder keeps of them for a geometrically well formed
 input (features keyed by ID, later ones replace earlier ones; the path of a clockwise closed way is
 reversed by `ValidatePath` — which ways are clockwise is an S2 computation and enters as a parameter).
 
-The model mirrors the code after the fix `fixes/C29-relation-member-area-id.patch` (member IDs are chosen
-by the *member's* ID); `memberIDBeforeFix` is what the code did before.
+The model mirrors the code after the fixes `fixes/C29-relation-member-area-id.patch` (member IDs are chosen
+by the *member's* ID; `memberIDBeforeFix` is what the code did before) and
+`fixes/C29-reserved-geometry-keys.patch` (OSM keys `point`/`path` become `osm:point`/`osm:path`;
+`keyForOSMKeyBeforeFix`).
 
 OSM elements are `B6.Model.Pbf.Element`s; for this property a node's `lat`/`lon` are E7 integers (only
 carried through to the `point` tag). Geometry (S2) is outside the model.
@@ -95,8 +97,15 @@ def lookupKey (k : String) : List (String × String) → Option String
   | [] => none
   | (a, b) :: rest => if a = k then some b else lookupKey k rest
 
-/-- `KeyForOSMKey` -/
+/-- `KeyForOSMKey` (after `fixes/C29-reserved-geometry-keys.patch`: the two keys b6 keeps a feature's
+geometry under are moved out of the way) -/
 def keyForOSMKey (k : String) : String :=
+  match lookupKey k osmTagMapping with
+  | some m => m
+  | none => if k = "point" ∨ k = "path" then "osm:" ++ k else k
+
+/-- before that fix an OSM key `point` / `path` was kept as it is -/
+def keyForOSMKeyBeforeFix (k : String) : String :=
   match lookupKey k osmTagMapping with
   | some m => m
   | none => k
@@ -202,13 +211,6 @@ def geometryLen (ts : List FTag) : Nat :=
   else match ts.find? (fun t => t.key = "path") with
     | some ⟨_, .ids l⟩ => l.length
     | _ => 0
-
-/-- the input class of the known finding `way-with-point-key`: an open way one of whose tags has the key
-`point` after the key mapping. Its path feature carries that tag next to the `path` tag, `GeometryLen`
-says 1, and `ValidatePath` drops it from the world. -/
-def pointKeyWay : Element → Bool
-  | .way _ nodes tags => wayClosed? nodes == some false && tags.any (fun t => keyForOSMKey t.key = "point")
-  | _ => false
 
 def reversePath (cw : List UInt64) : Feature → Feature
   | .generic id tags =>
